@@ -130,28 +130,62 @@ theorem lap4_map :
 
 /-! ### the whole mechanism: `value − scale·lap4` has the Laplace law with that scale and centre -/
 
-theorem lapMeasure_affine (s x : ℝ) (hs : 0 < s) :
-    (lapMeasure 1 0).map (fun l : ℝ => x - s * l) = lapMeasure s x := by
+theorem lapMeasure_affine' (c x : ℝ) (hc : c ≠ 0) :
+    (lapMeasure 1 0).map (fun l : ℝ => x + c * l) = lapMeasure |c| x := by
+  have hs : 0 < |c| := abs_pos.mpr hc
   have : Fact ((0:ℝ) < 1) := ⟨one_pos⟩
-  have : Fact ((0:ℝ) < s) := ⟨hs⟩
+  have : Fact ((0:ℝ) < |c|) := ⟨hs⟩
   have : IsProbabilityMeasure (lapMeasure 1 0) := lapMeasure_prob 1 0 one_pos
-  have hm : Measurable (fun l : ℝ => x - s * l) := measurable_const.sub (measurable_const.mul measurable_id)
-  have : IsProbabilityMeasure ((lapMeasure 1 0).map (fun l : ℝ => x - s * l)) :=
+  have hm : Measurable (fun l : ℝ => x + c * l) := measurable_const.add (measurable_const.mul measurable_id)
+  have : IsProbabilityMeasure ((lapMeasure 1 0).map (fun l : ℝ => x + c * l)) :=
     Measure.isProbabilityMeasure_map hm.aemeasurable
   refine Measure.ext_of_charFun ?_
   funext t
-  have hcomp : (fun l : ℝ => x - s * l) = (fun y : ℝ => x + y) ∘ (fun l : ℝ => (-s) * l) := by
-    funext l; simp only [Function.comp]; ring
+  have hcomp : (fun l : ℝ => x + c * l) = (fun y : ℝ => x + y) ∘ (fun l : ℝ => c * l) := rfl
   have hm1 : Measurable (fun y : ℝ => x + y) := measurable_const.add measurable_id
-  have hm2 : Measurable (fun l : ℝ => (-s) * l) := measurable_const.mul measurable_id
+  have hm2 : Measurable (fun l : ℝ => c * l) := measurable_const.mul measurable_id
   rw [hcomp, ← Measure.map_map hm1 hm2,
-    charFun_map_const_add, charFun_map_mul, charFun_lapMeasure 1 0 _ one_pos, charFun_lapMeasure s x t hs]
+    charFun_map_const_add, charFun_map_mul, charFun_lapMeasure 1 0 _ one_pos, charFun_lapMeasure |c| x t hs]
   have hin : inner ℝ x t = t * x := by simp [mul_comm]
-  rw [hin]
+  have habs : ((|c| : ℝ) : ℂ) ^ 2 = (c : ℂ) ^ 2 := by
+    rw [← Complex.ofReal_pow, sq_abs, Complex.ofReal_pow]
+  rw [hin, habs]
   push_cast
   simp only [mul_zero, zero_mul, Complex.exp_zero, one_pow, one_mul]
   rw [div_mul_eq_mul_div, one_mul]
   congr 2
   ring
+
+theorem lapMeasure_affine (s x : ℝ) (hs : 0 < s) :
+    (lapMeasure 1 0).map (fun l : ℝ => x - s * l) = lapMeasure s x := by
+  have h := lapMeasure_affine' (-s) x (neg_ne_zero.mpr hs.ne')
+  rw [abs_neg, abs_of_pos hs] at h
+  rw [← h]
+  congr 1
+  funext l; ring
+
+/-- `Laplace.randomise` over ℝ -/
+theorem laplace_real (eps delta sens x u1 u2 u3 u4 : ℝ) :
+    laplace eps delta sens x u1 u2 u3 u4 = x - Smp.laplaceScale eps delta sens * lap4 u1 u2 u3 u4 := rfl
+
+theorem measurable_laplace (eps delta sens x : ℝ) :
+    Measurable (fun u : ℝ × ℝ × ℝ × ℝ => laplace eps delta sens x u.1 u.2.1 u.2.2.1 u.2.2.2) := by
+  simp only [laplace_real]
+  exact measurable_const.sub (measurable_const.mul measurable_lap4)
+
+/-- the output of `Laplace.randomise` on four independent uniforms has the Laplace law with the coded scale, centred at
+the input -/
+theorem laplace_map (eps delta sens x : ℝ) (hb : 0 < Smp.laplaceScale eps delta sens) :
+    unif01x4.map (fun u : ℝ × ℝ × ℝ × ℝ => laplace eps delta sens x u.1 u.2.1 u.2.2.1 u.2.2.2)
+      = lapMeasure (Smp.laplaceScale eps delta sens) x := by
+  have hm : Measurable (fun l : ℝ => x - Smp.laplaceScale eps delta sens * l) :=
+    measurable_const.sub (measurable_const.mul measurable_id)
+  have hcomp : (fun u : ℝ × ℝ × ℝ × ℝ => laplace eps delta sens x u.1 u.2.1 u.2.2.1 u.2.2.2)
+      = (fun l : ℝ => x - Smp.laplaceScale eps delta sens * l)
+        ∘ (fun u : ℝ × ℝ × ℝ × ℝ => lap4 u.1 u.2.1 u.2.2.1 u.2.2.2) := rfl
+  rw [hcomp, ← Measure.map_map hm measurable_lap4, lap4_map, lapMeasure_affine _ _ hb]
+
+theorem laplaceScale_eq_cont (eps delta sens : ℝ) :
+    Smp.laplaceScale eps delta sens = Cont.laplaceScale eps delta sens := rfl
 
 end DPL.Smp
